@@ -153,6 +153,10 @@ spec_mutant("SpinMutex: lock gives up after a failed attempt (LockReturnsOnlyWhe
             'ELSE pc\' = [pc EXCEPT ![t] = "backoff"] /\\ UNCHANGED res', 'ELSE pc\' = [pc EXCEPT ![t] = "idle"] /\\ UNCHANGED res',
             r"Invariant LockReturnsOnlyWhenHeld is violated")
 
+# ---- SpinCond: a back-off whose burst size wraps to zero never checks the condition again
+spec_mutant("SpinCond: geometric back-off wraps to 0 (NeverIdle / Terminates)", "SpinCond", "MC_SpinCond.cfg", "SpinCond.tla",
+            "spins' = IF spins < SpinCap THEN spins * 2 ELSE spins", "spins' = IF spins < SpinCap THEN spins * 2 ELSE 0",
+            r"Invariant NeverIdle is violated|Temporal properties were violated")
 # ---- TLAPS: the mutual-exclusion proof must break when unlock() is allowed from outside the critical section
 def tlaps_mutant():
     global ok_all
